@@ -85,7 +85,7 @@ def strip_cond(fn, nid):
         if k == "bin" and n["op"] in ("==", "!=") and len(c) == 2:
             l, r = fn.nodes[c[0]], fn.nodes[c[1]]
             for a, b in ((c[0], r), (c[1], l)):
-                if b["k"] in ("lit",) and b.get("v") in (0, 1) and b.get("t") in ("bool", "int"):
+                if b["k"] in ("lit",) and b.get("v") in (0, 1) and b.get("t") in ("bool", "int") and fn.nodes[a].get("t") == "bool":
                     v = bool(b.get("v"))
                     same = (n["op"] == "==") == v
                     if not same:
@@ -258,3 +258,117 @@ def always_after(fn, a, b_list, exits_ok=True):
             prev[s] = x
             q.append(s)
     return True, []
+
+
+# ------------------------------------------------------------------------------------------------------------------
+# table-driven rule helpers
+
+
+def _shapes(ctx, pat, variants=None, inst_re=None):
+    from ..facts import AnalysisBroken
+    shapes = ctx.facts.shapes(pat)
+    if not shapes:
+        # recorded, not raised: if the same run finds a real violation (e.g. the call to this function was removed) that is
+        # the verdict; with no violation the run ends analysis-broken (exit 2)
+        ctx.broken.append("anchor vanished: function %s is not instantiated" % pat)
+        return []
+    if variants:
+        shapes = [f for f in shapes if f.variants & set(variants)]
+    if inst_re:
+        shapes = [f for f in shapes if any(re.search(inst_re, i) for i in f.insts)]
+    return shapes
+
+
+def mdesc(m):
+    if "desc" in m:
+        return m["desc"]
+    parts = []
+    for k in ("callee", "op", "kind", "field", "name", "k", "expr_re"):
+        if k in m:
+            parts.append("%s=%s" % (k, m[k]))
+    return "{" + ",".join(parts) + "}"
+
+
+def chain(ctx, rid, pat, steps, why="", variants=None, inst_re=None, mode="dom", label=None, optional_first=False):
+    """K2: the events matched by consecutive steps occur in this order on every path.
+    mode 'dom': every event of step i+1 is dominated by an event of step i.
+    mode 'post': every event of step i is followed, on every path to the function exit, by an event of step i+1.
+    A step without any matching event is a violation (the required operation was removed)."""
+    for fn in _shapes(ctx, pat, variants, inst_re):
+        evs = [find(fn, m) for m in steps]
+        inst0 = "%s#%s" % (pat, label or "->".join(mdesc(m) for m in steps))
+        missing = [mdesc(steps[i]) for i, e in enumerate(evs) if not e]
+        if missing:
+            if optional_first and not evs[0]:
+                ctx.ok(rid, inst0, "not applicable in this instantiation (no %s)" % mdesc(steps[0]), fn.where(), nontrivial=False, fn=fn)
+                continue
+            ctx.bad(rid, inst0, "%s: required event(s) %s not found in %s. %s" % (rid, ", ".join(missing), pat, why), fn.where(), fn=fn)
+            continue
+        good = True
+        for i in range(len(steps) - 1):
+            if mode == "dom":
+                if steps[i + 1].get("any"):
+                    sel = [b for b in evs[i + 1] if any(fn.before(a, b) for a in evs[i])]
+                    if not sel:
+                        good = False
+                        ctx.bad(rid, inst0, "no %s is preceded on every path by %s. %s" % (mdesc(steps[i + 1]), mdesc(steps[i]), why), fn.where(evs[i + 1][0]), fn=fn)
+                        break
+                    evs[i + 1] = sel
+                    continue
+                for b in evs[i + 1]:
+                    if not any(fn.before(a, b) for a in evs[i]):
+                        good = False
+                        ctx.bad(rid, inst0, "%s at line %d is not preceded on every path by %s. %s" % (
+                            fn.expr(b)[:80], fn.nodes[b].get("l", 0), mdesc(steps[i]), why), fn.where(b), fn=fn)
+                        break
+            else:
+                for a in evs[i]:
+                    ok, path = always_after(fn, a, evs[i + 1])
+                    if not ok:
+                        good = False
+                        ctx.bad(rid, inst0, "after %s at line %d there is a path to the function exit that does not pass %s. %s" % (
+                            fn.expr(a)[:80], fn.nodes[a].get("l", 0), mdesc(steps[i + 1]), why), fn.where(a), path=describe_path(fn, path), fn=fn)
+                        break
+            if not good:
+                break
+        if good:
+            ctx.ok(rid, inst0, "order holds: " + " < ".join("%s@L%d" % (mdesc(m), fn.nodes[e[0]].get("l", 0)) for m, e in zip(steps, evs)), fn.where(evs[0][0]), fn=fn)
+
+
+def guarded(ctx, rid, pat, action, atom, polarity=True, why="", variants=None, inst_re=None, label=None, require_action=True):
+    """K4: every event matching `action` is reachable only through the `polarity` edge of a condition on an atom matching `atom`."""
+    for fn in _shapes(ctx, pat, variants, inst_re):
+        acts = find(fn, action)
+        inst0 = "%s#%s" % (pat, label or (mdesc(action) + "|" + mdesc(atom)))
+        if not acts:
+            if require_action:
+                ctx.bad(rid, inst0, "required action %s not found in %s. %s" % (mdesc(action), pat, why), fn.where(), fn=fn)
+            else:
+                ctx.ok(rid, inst0, "no such action in this instantiation", fn.where(), nontrivial=False, fn=fn)
+            continue
+        pred = (lambda f, nid: node_matches(f, nid, atom))
+        for a in acts:
+            ok, path, natoms = only_via(fn, a, pred, polarity)
+            if ok and natoms:
+                ctx.ok(rid, inst0, "%s at line %d only reachable via the %s edge of %s" % (fn.expr(a)[:60], fn.nodes[a].get("l", 0), polarity, mdesc(atom)), fn.where(a), fn=fn)
+            else:
+                ctx.bad(rid, inst0, "%s at line %d is reachable without the %s edge of a condition on %s%s. %s" % (
+                    fn.expr(a)[:80], fn.nodes[a].get("l", 0), "true" if polarity else "false", mdesc(atom),
+                    " (no such condition exists)" if not natoms else "", why), fn.where(a), path=describe_path(fn, path), fn=fn)
+
+
+def present(ctx, rid, pat, m, why="", variants=None, inst_re=None, label=None, minimum=1):
+    for fn in _shapes(ctx, pat, variants, inst_re):
+        evs = find(fn, m)
+        inst0 = "%s#%s" % (pat, label or mdesc(m))
+        ctx.check(len(evs) >= minimum, rid, inst0, "%d event(s) %s" % (len(evs), mdesc(m)),
+                  "%s must contain %s (found %d, need %d). %s" % (pat, mdesc(m), len(evs), minimum, why), fn.where(), fn=fn)
+
+
+def absent(ctx, rid, pat, m, why="", variants=None, inst_re=None, label=None):
+    for fn in _shapes(ctx, pat, variants, inst_re):
+        evs = find(fn, m)
+        inst0 = "%s#%s" % (pat, label or ("no " + mdesc(m)))
+        ctx.check(not evs, rid, inst0, "no event %s" % mdesc(m),
+                  "%s must not contain %s (found at line %s). %s" % (pat, mdesc(m), ",".join(str(fn.nodes[e].get("l")) for e in evs), why),
+                  fn.where(evs[0]) if evs else fn.where(), fn=fn)
